@@ -315,7 +315,10 @@ async def run_against(out, args, binary, label, rng, passes):
             # ---- batch 4: malformed inline RPFM frames after a valid CONNECT/udp
             frames = [b"XXXX" + b"\0" * 8, b"RPFM\0\0\0\x01\xff\xff\xff\xff", b"RPFM\0\0\0\x01\0\x03\0\x02\x03\x01axy", b"RPFM\0\0\0\x01\0\x02\0\0\x03\x00", b"RPFM\0\0\0\x01\0\x08\0\0\x09\x06\x01\x02\x03\x04\0\x01",
                       b"RPFM\0\0\0\x01\0\x08\0\x01\x01\x05\x01\x02\x03\x04\0\x01z", b"RPFM", b"RPFM\0\0\0\x01\0\x04\0\0\x03\xff\0\x35", b"RPFM\0\0\0\x01\0\x14\0\0\x02\x12" + b"\0" * 18,
-                      b"RPFM\0\0\0\x01\0\x05\0\x03\x03\x03a\0\x35abc"]
+                      b"RPFM\0\0\0\x01\0\x05\0\x03\x03\x03a\0\x35abc",
+                      # a complete attribute followed by stray bytes / a second record cut short / unknown records
+                      b"RPFM\0\0\0\x01\0\x09\0\0\x01\x06\x01\x02\x03\x04\0\x35\x03", b"RPFM\0\0\0\x01\0\x0a\0\0\x01\x06\x01\x02\x03\x04\0\x35\x03\x09",
+                      b"RPFM\0\0\0\x01\0\x0b\0\0\x09\x01\x00\x01\x06\x01\x02\x03\x04\0\x35", b"RPFM\0\0\0\x01\0\x03\0\0\x09\x00\x09", b"RPFM\0\0\0\x01\0\x01\0\0\x01"]
             for fr in frames + [mutate(rng, rng.choice(frames)) for _ in range(60)]:
                 out.case()
                 out.nontrivial((label, "inline-frame", fr[:30]))
@@ -331,6 +334,27 @@ async def run_against(out, args, binary, label, rng, passes):
                 except Exception:
                     pass
             if not await liveness(out, A, P, origin.port, "malformed inline frames (%s)" % label):
+                break
+            # ---- batch 6: clients that stall (nothing, one byte, half a handshake, half a TLS record) and STAY while others are
+            # served: a stalled client may only hurt itself
+            held = []
+            for lp in ("http", "https", "socks", "socksauth", "sockstls"):
+                for pre in (b"", b"\x16", b"\x16\x03\x01\x02\x00\x01\x00\x01\xfc\x03\x03", valid["http"][:9], valid["socks5"][:2]):
+                    out.case()
+                    out.nontrivial((label, "stall-held", lp, pre[:4]))
+                    try:
+                        c = await open_conn("127.0.0.1", P[lp], timeout=3)
+                        if pre:
+                            c.write(pre)
+                            await c.drain()
+                        held.append(c)
+                    except Exception:
+                        pass
+            await asyncio.sleep(0.3)
+            alive_ok = await liveness(out, A, P, origin.port, "clients stalled in their handshake are still connected (%s)" % label)
+            for c in held:
+                c.close()
+            if not alive_ok:
                 break
             # ---- batch 5: hostile upstream replies (http / socks5 / socks4 connectors), TCP and UDP requests
             for host in list(ups.HTTP) + list(ups.S5):
